@@ -4,6 +4,7 @@ import (
 	"fmt"
 
 	"github.com/buildkite/go-pipeline/ordered"
+	"github.com/buildkite/go-pipeline/warning"
 )
 
 // GroupStep models a group step.
@@ -27,7 +28,8 @@ type GroupStep struct {
 // UnmarshalOrdered unmarshals a group step from an ordered map.
 func (g *GroupStep) UnmarshalOrdered(src any) error {
 	type wrappedGroup GroupStep
-	if err := ordered.Unmarshal(src, (*wrappedGroup)(g)); err != nil {
+	err := ordered.Unmarshal(src, (*wrappedGroup)(g))
+	if err != nil && !warning.Is(err) {
 		return fmt.Errorf("unmarshalling GroupStep: %w", err)
 	}
 
@@ -35,7 +37,9 @@ func (g *GroupStep) UnmarshalOrdered(src any) error {
 	if g.Steps == nil {
 		g.Steps = Steps{}
 	}
-	return nil
+	// Warnings (e.g. about an unknown step within the group) are passed on
+	// as warnings; the group itself is still a group.
+	return err
 }
 
 func (g *GroupStep) interpolate(tf stringTransformer) error {
